@@ -1,7 +1,7 @@
 """C45: harness operations, encoding and oracle.  A REAL Cluster / Session (real __init__, inline executor during
 construction only) / HostConnection / ControlConnection / reconnection handlers with fake connections, a manual
 executor and a manual scheduler (vf.cstate_harness)."""
-from vf.cstate_harness import Harness
+from vf.cstate_harness import Harness, HookLock
 
 
 class H45(Harness):
@@ -21,6 +21,7 @@ class H45(Harness):
         self.sessions.append(s)
         self.session = s
         self.req_timers = []
+        self.attempts0 = len(self.attempts)
 
     # ------------------------------------------------------------------ observation
     def task45(self, item):
@@ -54,7 +55,7 @@ class H45(Harness):
             else:
                 pools.append((p._connection.cid if p._connection is not None else -1, int(bool(p.is_shutdown))))
         cc = c.control_connection
-        return {'nconn': len(self.conns), 'closed': sorted(x.cid for x in self.conns if x.is_closed),
+        return {'nconn': len(self.conns), 'attempts': len(self.attempts) - self.attempts0, 'closed': sorted(x.cid for x in self.conns if x.is_closed),
                 'cl_down': int(bool(c.is_shutdown)), 'sess_down': int(bool(self.session.is_shutdown)),
                 'cc_down': int(bool(cc._is_shutdown)), 'sched_down': int(bool(self.scheduler.is_shutdown)),
                 'pools': pools, 'cc_conn': cc._connection.cid if cc._connection is not None else -1,
@@ -72,13 +73,20 @@ class H45(Harness):
             ops.append(('startrecon', h))
         ops += [('ccreconnect',), ('clshutdown',), ('sessshutdown',), ('submit',), ('request',)]
         for k, t in enumerate(self.executor.queue):
+            kind = self.task45(t)[0]
             for o in ('ok', 'err'):
-                for d in (0, 1):
+                for d in (0, 1, 2):
+                    if o == 'err' and d and kind != 'ccreconnect':
+                        continue            # a shutdown during a FAILING connect is modelled for the control connection only
+                    if d == 2 and (o == 'err' or kind not in ('replace', 'addpool')):
+                        continue            # d = 2: shutdown right before the locked check+install region
                     ops.append(('run', k, o, d))
         if not self.scheduler.is_shutdown:
             for k, t in enumerate(self.scheduler.timers):
                 for o in ('ok', 'err'):
                     for d in (0, 1):
+                        if o == 'err' and d and self.timer45(t)[0] != 'ctl':
+                            continue
                         ops.append(('fire', k, o, d))
         return ops
 
@@ -121,8 +129,24 @@ class H45(Harness):
             if op[1] < len(seq) and not (kind == 'fire' and self.scheduler.is_shutdown):
                 for h in range(self.cfg['nhosts']):
                     self.outcome[h] = 'ok' if op[2] == 'ok' else 'err'
-                if op[3]:
+                restore = None
+                if op[3] == 1:
                     self.after_connect = c.shutdown          # the cluster is shut down while the connect is in progress
+                elif op[3] == 2 and kind == 'run':
+                    # forced interleaving: the shutdown lands after the connect, right before the lock that guards the
+                    # "shut down meanwhile?" test + install of the new connection / pool
+                    f, fn, args, kwargs = self.executor.queue[op[1]]
+                    d = self.task45(self.executor.queue[op[1]])
+                    if d[0] == 'replace':
+                        pool = fn.__self__
+                        orig = pool._lock
+                        pool._lock = HookLock(orig, 1, c.shutdown)      # 1st acquisition = the entry check of _replace
+                        restore = lambda: setattr(pool, '_lock', orig)
+                    elif d[0] == 'addpool':
+                        sess = self.session
+                        orig = sess._lock
+                        sess._lock = HookLock(orig, 0, c.shutdown)
+                        restore = lambda: setattr(sess, '_lock', orig)
                 try:
                     if kind == 'run':
                         self.executor.run(op[1])
@@ -134,6 +158,8 @@ class H45(Harness):
                             pass
                 finally:
                     self.after_connect = None
+                    if restore is not None:
+                        restore()
         else:
             raise ValueError(op)
         return out, self.snap45()
@@ -158,7 +184,7 @@ OUTC = {'refused': 0, 'accepted': 1, 'nothing': 2, 'sent': 1}
 
 
 def encode45(snap, out):
-    e = [snap['nconn'], snap['cl_down'], snap['sess_down'], snap['cc_down'], snap['sched_down'], snap['cc_conn'], -1]
+    e = [snap['nconn'], snap['attempts'], snap['cl_down'], snap['sess_down'], snap['cc_down'], snap['sched_down'], snap['cc_conn'], -1]
     e += snap['closed'] + [-2]
     for p in snap['pools']:
         e += [-9] if p is None else [p[0], p[1]]
@@ -200,6 +226,15 @@ def oracle45(H, op, out, snap, mem):
         open_ = [c for c in range(snap['nconn']) if c not in snap['closed'] and c != snap['cc_conn']]
         if open_:
             finds.append(('open-after-session-shutdown', 'session connections %r still open after Session.shutdown' % open_, 'C45_all_closed'))
+    n0 = mem.get('natt', 0)
+    started = H.attempt_after_shutdown[n0:]
+    mem['natt'] = len(H.attempt_after_shutdown)
+    # a task that was already queued may make ONE attempt after the shutdown (it then sees the flag); any further attempt
+    # of the same step that starts after Cluster.shutdown is a new connection attempt started after shutdown
+    late = [i for i, after in enumerate(started) if after and i > 0]
+    if late:
+        finds.append(('attempt-started-after-shutdown', '%d connection attempt(s) were started after Cluster.shutdown by %r (attempts of this step: %r)'
+                      % (len(late), op, started), 'C45_no_new_connections'))
     prev = mem.get('prev')
     if prev is not None and prev['cl_down']:
         if len(snap['queue']) > len(prev['queue']) or len(snap['timers']) > len(prev['timers']):
@@ -216,7 +251,7 @@ def gen_and_run45(rng, nhosts, n, script=None):
     H = H45(nhosts)
     try:
         ops, encs, finds = [], [], []
-        mem = {'prev': H.snap45()}
+        mem = {'prev': H.snap45(), 'natt': len(H.attempt_after_shutdown)}
         shut_at = rng.randrange(1, n) if script is None else None
         for i in range(n if script is None else len(script)):
             if script is not None:
